@@ -35,7 +35,7 @@ func (c20timeout) Error() string   { return "i/o timeout" }
 func (c20timeout) Timeout() bool   { return true }
 func (c20timeout) Temporary() bool { return true }
 
-// symbols: F frame, P frame whose processing fails, A EAGAIN, T timeout, R ECONNRESET, U unknown (same text each time), V unknown (text differs by position), H unknown of an unhashable, incomparable type,
+// symbols: F frame, P frame whose processing fails, A EAGAIN, T timeout, R ECONNRESET, U unknown (same text each time), V unknown (text differs by position), H unknown of an unhashable, incomparable type, I EINTR and M an OpError around EMFILE (Temporary() but not Timeout(): unknown failures),
 // E EOF, B EBADF, C closed file, X unexpected EOF, Y closed pipe, a wrapped EAGAIN, r wrapped ECONNRESET,
 // t a timeout net.Error that wraps another errno (net.OpError{Err: ETIMEDOUT}), w EWOULDBLOCK wrapped with %w;
 // frames whose PROCESSING fails with an error value that a read fault could also have: p io.ErrUnexpectedEOF,
@@ -64,6 +64,12 @@ func c20err(sym byte, i int) error {
 		return errors.New("unknown failure")
 	case 'V':
 		return fmt.Errorf("unknown-%d", i)
+	case 'I':
+		// interrupted system call: "temporary" in the net.Error sense, but neither would-block, nor a
+		// timeout, nor a connection reset - an unknown failure, to be reported
+		return syscall.EINTR
+	case 'M':
+		return &net.OpError{Op: "read", Net: "packet", Err: syscall.EMFILE}
 	case 'H':
 		return c20multi{errors.New("link down"), errors.New("ring stalled")}
 	case 'E':
@@ -156,6 +162,12 @@ func c20model(script string) (processed, errs []string, terminated bool, sleeps 
 			sleeps++
 		case sym == 'V':
 			errs = append(errs, fmt.Sprintf("unknown-%d", i))
+			sleeps++
+		case sym == 'I':
+			errs = append(errs, syscall.EINTR.Error())
+			sleeps++
+		case sym == 'M':
+			errs = append(errs, (&net.OpError{Op: "read", Net: "packet", Err: syscall.EMFILE}).Error())
 			sleeps++
 		case sym == 'H':
 			errs = append(errs, c20multi{errors.New("link down"), errors.New("ring stalled")}.Error())
@@ -324,10 +336,10 @@ func init() { drv.Register("c20", verifC20) }
 
 func verifC20(c *drv.Ctx) {
 	alpha, maxLen, maxLenD1 := "FPATtRUEBC", 5, 3
-	ext, extLen := "FPpqATtwaRUVHEBC", 4
+	ext, extLen := "FPpqATtwaRUVHIMEBC", 4
 	if c.Thorough() {
 		alpha, maxLen, maxLenD1 = "FPATtRUEBCXYar", 5, 4
-		ext, extLen = "FPpqATtwarRUVHEBCXY", 4
+		ext, extLen = "FPpqATtwarRUVHIMEBCXY", 4
 	}
 	c.R.Rule = fmt.Sprintf("every reachable read-outcome script of length <= %d over %q and of length <= %d over the extended alphabet %q (terminal symbols only last; p, q = frames whose processing fails with io.ErrUnexpectedEOF / EAGAIN, w = EWOULDBLOCK wrapped with %%w, a = EAGAIN in an os.SyscallError) x {consumer drains to close, consumer stops on cancel}; "+
 		"each run through the real ReceivePackets under the scheduler, reads being scheduling points: deviation bound 0 with the cancel event injected at every choice point for all scripts, bound 1 for scripts of length <= %d; "+
